@@ -132,6 +132,26 @@ NOT_YET = {}
 ALL = ["C%02d" % i for i in range(1, 19)]
 
 
+# what later rounds added on top of the texts above (DESIGN.md sections 12 and 15 have the details)
+LATER = {
+ "C03": " Later rounds: the channel `send` an origin-carrying delivery runs is part of the check (scheduled channel scenarios, no-panic / own-step-bound monitors on send; C08_never_panics, C08_op_bounded audited here too); scheduled scenarios on the info-carrying exfiltrator with deliveries racing add_signal of their own signal, heap monitor on every delivery; deterministic sweep of a delivery over every step of a first registration.",
+ "C04": " Later rounds: predecessors SIG_IGN / SIG_DFL installed with SA_SIGINFO and other flags; tie C04_chained_call_shape (Prev::execute excludes the special dispositions in one guard before it looks at any flag); a scenario whose process is killed by a signal is reported with that scenario as the failing input.",
+ "C05": " Later rounds: C05_container_shape (ActionId = u128 with derived Ord, BTreeMap of actions, HashMap of signals, regenerated); special dispositions with arbitrary sa_flags in the histories.",
+ "C06": " Later rounds: values, not only indexes (Props/C06b.lean over history variables: C06_values_fifo, C06_values_are_sent, C06_queued_values_intact, C06_recv_takes_its_own); the unshimmed channel under Miri (weak-memory emulation, data-race detector) in the thorough tier.",
+ "C07": " Later rounds: C07_race_free for every reachable state of the N-thread view model (Lemmas/ChannelInv.lean); accounting of values (Props/C07b.lean: C07_values_conserved, C07_no_value_twice, C07_quiescent_accounting, C07_overflow_drop_is_unwritten); the unshimmed channel under Miri (C11 interpreter with weak-memory emulation and a data-race detector working from the declared orderings) in both tiers; the theorem that pinned the exact orderings was removed (a stronger ordering keeps every theorem).",
+ "C08": " Later rounds: C08_never_panics for every reachable state; Props/C08b.lean: C08_op_bounded (a busy thread alone completes its call within ccost <= 7 own steps plus one per spurious failure, hypothesis casFresh), C08_op_bounded_concurrent (any interleaving: own steps so far < ccost + own spurious failures + compare-exchanges won by others); Miri stage in the thorough tier.",
+ "C09": " Later rounds: progress for all three front ends, both exfiltrator models, consumer running alone: C09_forever_obtains, C09_batch_obtains, C09_poll_obtains and their queueing counterparts, each with a _reachable corollary from the inductive invariant; front-end probes of Signals / mio / tokio / async-std incl. a signal during start-up.",
+ "C11": " Later rounds: C11_close_unblocks, C11_close_bounded; deterministic sweep of close() over a poll_signal call that loops twice; adapter probes (waker must be called).",
+ "C13": " Later rounds: second registration on a dup of the descriptor (C13_shared_description_never_blocks, lock-step); close() answered with EINTR after releasing the descriptor (still closed once).",
+ "C16": " Later rounds: contexts `pending` (another signal blocked and pending), `group` (a bystander in the same process group, whose fate is part of the outcome), `worker` (emulation on a second thread while the main thread idles unblocked); tie C16_emulation_skeleton.",
+ "C17": " Later rounds: C17_table_fields_fit (the integer types of struct Const's fields are regenerated; every row's constants fit).",
+ "C18": " Later rounds: L6 theorems for the whole registry (no deadlock, lock order, quiescent completion within 36 own steps); Props/C18b.lean, C18c.lean: sticky flags, C18_switched_away_slot_only_drains, and the witness C18_first_look_can_find_both_slots_busy (the barrier can wait for a delivery that began after the switch: recorded as an observation in DESIGN.md section 13, not a finding under the finitely-many-deliveries reading).",
+}
+for _k, _v in LATER.items():
+    if _k in CLAIMED:
+        CLAIMED[_k]["note"] = CLAIMED[_k]["note"] + _v
+
+
 def main():
     checks = []
     for pid in ALL:
